@@ -50,10 +50,11 @@ B2N(b) == IF b THEN 1 ELSE 0
 FieldDev(f) == B2N(f.dbg # Own \/ f.key # "")
 RECURSIVE FieldsDev(_)
 FieldsDev(fs) == IF fs = <<>> THEN 0 ELSE FieldDev(Head(fs)) + FieldsDev(Tail(fs))
-VarDev(var) == B2N(var.dname # "default") + B2N(var.dnf # "default") + FieldsDev(var.fields)
+\* likewise the settings of one variant (its name and its named_field) are one deviation, and so are the type's
+VarDev(var) == B2N(var.dname # "default" \/ var.dnf # "default") + FieldsDev(var.fields)
 RECURSIVE VarsDev(_)
 VarsDev(vs) == IF vs = <<>> THEN 0 ELSE VarDev(Head(vs)) + VarsDev(Tail(vs))
-Deviations(c) == B2N(c.opts.dname # "default") + B2N(c.opts.dnf # "default") + VarsDev(c.variants)
+Deviations(c) == B2N(c.opts.dname # "default" \/ c.opts.dnf # "default") + VarsDev(c.variants)
 
 MCBoundOK(c) ==
   /\ NVariants(c) >= 1
